@@ -1,5 +1,7 @@
 import PiqpProofs.Basic
 import PiqpModel.Control
+import PiqpProofs.Properties.C01
+import PiqpProofs.Properties.C08
 
 /-!
 # C12 — factorisation failures are retried, bounded and never poison the result
@@ -59,3 +61,35 @@ theorem init_numerics_only_after_retries (st : Settings K) (cs : Consts K) (ops 
   fun_induction initLoopG st cs ops refineOn retries s info <;> simp_all
 
 end Piqp.C12
+
+/-!
+## Failures never poison the result
+
+In `realOps e` the factorisation is `KKT.regFactor … e.inner` with an **arbitrary** `e.inner : Inner K n p m` — it may fail (return
+`none`) on any subset of the calls, in any pattern. The two theorems below are therefore statements about every failure
+pattern at once; they are C08's and C01's theorems, restated here because this is what "never poison the result" means.
+-/
+
+namespace Piqp.C12
+section poison
+variable {K : Type} [Field K] [LinearOrder K] [IsStrictOrderedRing K]
+variable {n p m : Nat}
+
+/-- whatever the factorisation does, the iterate returned at any exit (SOLVED, either verdict, MAX_ITER, NUMERICS) has
+    strictly positive slacks and multipliers on every active block -/
+theorem failures_keep_cone (e : Env K n p m) (ls : LoopState K n p m) (hτ0 : 0 < e.st.tau) (hτ1 : e.st.tau < 1)
+    (heps : 0 ≤ e.cs.machEps) (hc : C08.InCone e.data ls.w) : C08.InCone e.data (mainLoop e ls).1.w :=
+  C08.mainLoop_in_cone e ls hτ0 hτ1 heps hc
+
+/-- whatever the factorisation does, SOLVED carries the certificate of the user's problem -/
+theorem failures_keep_certificate (e : Env K n p m) (d0 : Data K n p m) (hk : e.pk ≠ .identity)
+    (hs : C15.Scaled d0 e.data e.pre) (hi : C15.InvFull e.pre) (ls : LoopState K n p m) (h0 : ls.c.iter = 0)
+    (hsolved : (mainLoop e ls).2 = Status.solved) (i : Fin n) :
+    vabs (C01.userDualRes d0 (e.pre.unscalePrimal e.pk (mainLoop e ls).1.w.x) (e.pre.unscaleDualEq e.pk (mainLoop e ls).1.w.y)
+        (e.pre.unscaleDualIneq e.pk (mainLoop e ls).1.w.z) (e.pre.unscaleDualLb e.pk (mainLoop e ls).1.w.z_lb)
+        (e.pre.unscaleDualUb e.pk (mainLoop e ls).1.w.z_ub) i)
+      < e.st.epsAbs + e.st.epsRel * (mainLoop e ls).1.info.dualRelInf :=
+  (C01.solved_certificate e d0 hk hs hi ls h0 hsolved).1 i
+end poison
+end Piqp.C12
+
